@@ -28,6 +28,8 @@ class MergeFlow(Engine):
         self.sites: Dict[str, set] = {}
         self.outcomes: List[dict] = []
         self.merge_family = {c.qualname for c in prog.subclasses(prog.cls('MosFile'))}
+        self.guard_tags: set = set()
+        self.ro_root = None
 
     def count(self, kind, st, node, construct=None):
         func, n, file, line = self.attrib(st, node)
@@ -60,6 +62,12 @@ class MergeFlow(Engine):
         return '?'
 
     # ------------------------------------------------------------- mutation
+    def root_op(self, st: State, what, parent, n):
+        if isinstance(parent, Ref) and parent.kind == 'elem' and st.get(parent.sym).origin[0] == 'root' and st.get(parent.sym).prov == 'RO':
+            tag = st.get(n.sym).tag if isinstance(n, Ref) and n.kind == 'elem' else None
+            prov = st.get(n.sym).prov if isinstance(n, Ref) and n.kind == 'elem' else '?'
+            st.mon['rootops'] = (st.mon.get('rootops') or ()) + ((what, tag, prov),)
+
     def mark_mutation(self, st: State, node, what, parent):
         if self.owner(parent, st) == 'RO' and not st.mon.get('mutated'):
             func, n, file, line = self.attrib(st, node)
@@ -215,6 +223,7 @@ class MergeFlow(Engine):
         if self.owner(parent, st) == 'COPY':
             self.count('copy-mutation', st, node)
         self.check_frame(st, node, 'remove', parent, node_)
+        self.root_op(st, 'remove', parent, node_)
         self.mark_mutation(st, node, 'remove', parent)
         self.bump(st, node_, -1)
 
@@ -227,6 +236,7 @@ class MergeFlow(Engine):
                            'a node that is not part of the copied payload is inserted into it')
         self.check_frame(st, node, 'insert', parent, node_)
         self.check_share(st, node, 'insert', parent, node_)
+        self.root_op(st, 'insert', parent, node_)
         self.mark_mutation(st, node, 'insert', parent)
         self.bump(st, node_, +1)
         self.mark_inserted(st, node_)
@@ -235,6 +245,7 @@ class MergeFlow(Engine):
         self.count('append', st, node)
         self.check_frame(st, node, 'append', parent, node_)
         self.check_share(st, node, 'append', parent, node_)
+        self.root_op(st, 'append', parent, node_)
         self.mark_mutation(st, node, 'append', parent)
         self.bump(st, node_, +1)
         self.mark_inserted(st, node_)
@@ -243,6 +254,7 @@ class MergeFlow(Engine):
         self.count('setitem', st, node)
         self.check_frame(st, node, 'setitem', parent, node_)
         self.check_share(st, node, 'setitem', parent, node_)
+        self.root_op(st, 'setitem', parent, node_)
         self.mark_mutation(st, node, 'setitem', parent)
         if entry is not None and entry.kind == 'fresh' and entry.anchor in st.heap:
             self.bump(st, Ref('elem', entry.anchor), -1)
@@ -424,6 +436,8 @@ class MergeFlow(Engine):
 
     # ------------------------------------------------------- id enumeration
     def on_find(self, st, node, parent, tag, result, path):
+        if isinstance(tag, str) and st.frame.func is not None and st.frame.func.name == '__add__' and st.get(parent.sym).origin[0] == 'root':
+            self.guard_tags.add(tag)
         if path or not isinstance(tag, str) or tag not in schema.ID_TAGS:
             return
         pe: ElemE = st.get(parent.sym)
@@ -492,14 +506,33 @@ class MergeFlow(Engine):
         add = self.prog.func('RunningOrder.__add__')
         entries = merge_entries(self, self.cname)
         for ro, msg, st in entries:
+            self.ro_root = st.get(ro.sym).get('_xml')
             for v, s in self.call_function(add, [msg], {}, st, None, self_val=ro):
                 self.judge_outcome(v, s, ro)
         return self
 
     def judge_outcome(self, v, s: State, ro):
         kind, level, _ = self.role
-        rec = {'result': 'raise ' + v.exc.cls if isinstance(v, Raise) else 'return', 'mutated': s.mon.get('mutated')}
+        rec = {'result': 'raise ' + v.exc.cls if isinstance(v, Raise) else 'return', 'mutated': s.mon.get('mutated'),
+               'rootops': list(s.mon.get('rootops') or ())}
         self.outcomes.append(rec)
+        # completion guard: which guard tags were present at entry on this path?
+        present = [t for t in self.guard_tags if isinstance(self.ro_root, Ref) and isinstance(s.first.get((self.ro_root.sym, t)), int)
+                   and s.first.get((self.ro_root.sym, t)) in s.heap and s.get(s.first[(self.ro_root.sym, t)]).prov == 'RO']
+        rec['guard_present'] = present
+        evs = [e.kind for e in s.events() if e.kind in ('lookup', 'remove', 'insert', 'append', 'setitem', 'newchild', 'warn', 'copy')]
+        rec['effects'] = sorted(set(evs))
+        if not isinstance(v, Raise) and isinstance(ro, Ref):
+            fi = self.prog.cls('RunningOrder').find('completed')
+            vals = set()
+            if fi is not None:
+                saved_entry, saved_findings = self.entry, dict(self.findings)
+                try:
+                    for cv, cs in self.call_function(fi, [], {}, s.copy(), None, self_val=ro):
+                        vals.add(repr(cv.v) if isinstance(cv, Const) else ('raise ' + cv.exc.cls if isinstance(cv, Raise) else self.describe(cv, cs)))
+                finally:
+                    self.findings = saved_findings
+            rec['completed_after'] = sorted(vals)
         if isinstance(v, Raise):
             exc = v.exc
             file, line, func, text = exc.site if exc.site else ('?', 0, '?', '?')
